@@ -86,6 +86,13 @@ def s_keywords(tier, rng, evs=EVS, mode='tokens'):
                 out.append(case(ev, mode, None, nm[:i] + nm[i + 1:] + '(1)'))
                 out.append(case(ev, mode, None, nm[:i] + 'x' + nm[i + 1:] + '(1)'))
             out.append(case(ev, mode, None, nm + 'x(1)'))
+            # a letter replaced by a character whose code point is congruent to it modulo 256 / 65536 (truncating casts)
+            if nm.isascii():
+                for i in range(len(nm)):
+                    for off in (0x100, 0x200, 0x400, 0x2000, 0x10000):
+                        out.append(case(ev, 'eval', None, nm[:i] + chr(ord(nm[i]) + off) + nm[i + 1:] + '(1)'))
+                for off in (0x100, 0x2000):
+                    out.append(case(ev, 'eval', None, nm + chr(ord('(') + off) + '1)'))
             out.append(case(ev, 'eval', None, nm.upper() + '(1)'))
             out.append(case(ev, 'eval', None, nm.capitalize() + '(1)'))
             out.append(case(ev, 'eval', None, nm + '(1)'))
@@ -424,6 +431,24 @@ def s_fusion(tier, rng, evs=EVS, only=None):
         for _ in range(1500 if tier == 'quick' else 15000):
             u1, u2 = rng.choice(U), rng.choice(U)
             out.append(case(ev, 'eval', None, (u1 % rng.choice(pool)) + rng.choice(ops) + (u2 % rng.choice(pool))))
+    return out
+
+def s_fusion3(tier, rng, evs=EVS):
+    """three levels: F( U(a) op U(b) ) with the same child U on both sides (sqrt(a^2+b^2), ln(exp a * exp b), abs(a^3-b^3) ...):
+       the shape a norm / log-sum / difference-of-powers shortcut keys on"""
+    out = []
+    for ev in evs:
+        U = unary_forms(ev)
+        F = [f + '(%s)' for f in gen.F1[ev]] + ['-(%s)', '(%s)²'] + (['(%s)!'] if gen.HAS_BANG[ev] else [])
+        pool = FUSE_POOL[ev]
+        prs = [(pool[6 % len(pool)], pool[6 % len(pool)]), (pool[5], pool[2]), (pool[2], pool[3]), ('17', '27') if ev != 'complex' else ('2', 'i')] + \
+              ([('0.1', '0.3'), ('0.1', '0.1')] if ev != 'i64' else [('7', '7')])
+        ops = [o for o in gen.BINOPS[ev] if o in ('+', '-', '*', '/')]
+        for f in F:
+            for u in U:
+                for op in ops:
+                    for a, b in prs:
+                        out.append(case(ev, 'eval', None, f % ((u % a) + op + (u % b))))
     return out
 
 def s_aggmix(tier, rng, evs=('f64', 'i64', 'decimal', 'number')):
@@ -768,6 +793,19 @@ def run_C09(tier, rng, stats):
         sa, sb = rng.choice([1, -1]), rng.choice([1, -1])
         for op in ['+', '-', '*']:
             cs.append(case('number', 'eval', 'I%d' % (sa * a), '@' + op + ('(-%d)' % b if sb < 0 else str(b))))
+    # Integer products and sums whose exact value straddles +-2^63 by a few units (the fallback to Float starts exactly there)
+    for _ in range(150 if tier == 'quick' else 1500):
+        a = 2 + rng.below(1 << (1 + rng.below(40)))
+        q = (1 << 63) // a
+        for d in (-1, 0, 1, 2):
+            b = q + d
+            for sa, sb in ((1, 1), (1, -1), (-1, 1), (-1, -1)):
+                cs.append(case('number', 'eval', 'I%d' % (sa * a), '@*' + ('(-%d)' % b if sb < 0 else str(b))))
+    for a in [(1 << 62) + 1, (1 << 62) - 1, (1 << 62), 3074457345618258603, 9007199254740993, 4611686018427388929]:
+        for b in ['2', '(-2)', '3', '(-3)', '1024', '(-1024)', '(-1)']:
+            cs.append(case('number', 'eval', 'I%d' % a, '@*' + b)); cs.append(case('number', 'eval', 'I%d' % -a, '@*' + b))
+            cs.append(case('number', 'eval', 'I%d' % a, b + '(@)'))
+    cs += s_fusion3(tier, rng, evs=['number'])
     cs += s_powgrid(tier, rng, evs=['number']) + s_fusion(tier, rng, evs=['number'], only=['abs', 'sgn', 'floor', 'ceil', 'round', 'trunc', 'sqrt', '(', 'pow', 'mod', '⌊', '⌈'])
     stats['rule'] = ('random mixed Integer/Float expressions over the boundary pools of both types, every arithmetic operator on all (placeholder, literal) pairs, Integer pairs near the i64 range with arbitrary low bits, '
                      'rounding functions on halves / negative fractions / 2^63 neighbours; variant and bits compared')
@@ -1434,7 +1472,7 @@ def run_C20(tier, rng, stats):
                     first.append(case(ev, 'eval', None, E))
                     for C in parents:
                         triples.append((ev, C, E, gen.default_ph(ev)))
-    first += s_fusion(tier, rng)
+    first += s_fusion(tier, rng) + s_fusion3(tier, rng)
     cases, outs, model = run_streams(first, stats)
     res = std_judge('C20', cases, outs, model)
     idx = {c: i for i, c in enumerate(cases)}
@@ -1770,6 +1808,12 @@ def run_C19(tier, rng, stats):
     lits.discard('.')
     lits |= set(longlit_runs())
     lits |= set(midpoint_literals(tier, rng))
+    # short digit run followed by k zeros, k = 0..45 (the printed form of large doubles; fast paths through powers of ten end at 10^22)
+    for m in ['1', '3', '6', '7', '11', '12', '14', '17', '125', '999', '123456789012345', '9007199254740993']:
+        for k in range(0, 46):
+            lits.add(m + '0' * k)
+            if k in (21, 22, 23, 24):
+                lits.add(m + '0' * k + '.0'); lits.add('00' + m + '0' * k)
     cs = s_longlits(tier, rng)
     for ev in EVS:
         for l in sorted(lits):
@@ -2467,6 +2511,13 @@ def run_C08(tier, rng, stats):
         return f2w(z.real) + ',' + f2w(z.imag)
     zs = [complex(a, b) for a, b in [(1.5, 0.5), (-1.25, 2.0), (0.3, -0.7), (2.0, 1.0), (-0.5, -1.5), (3.0, 0.25)]] + \
          [complex((rng.below(4000) - 2000) / 500.0 or 0.5, (rng.below(4000) - 2000) / 500.0 or 0.25) for _ in range(n)]
+    # neighbours of the unit circle on both axes (poles / branch points of atan, atanh, asin, acos, ln at +-1, +-i): model only
+    for x in [1 - 2.0 ** -53, 1 + 2.0 ** -52, 1 - 2.0 ** -52, 1.0, 0.5, 2.0, 2.0 ** -1074, 1e308]:
+        for z in [complex(x, 0.0), complex(-x, 0.0), complex(0.0, x), complex(0.0, -x), complex(-0.0, x), complex(x, -0.0), complex(x, x)]:
+            for f in gen.F1['complex']:
+                c = case('complex', 'eval', cw(z), f + '(@)')
+                if c not in meta:
+                    cs.append(c); meta[c] = ('model-only', f, (z,))
     for z in zs:
         for f in gen.F1['complex']:
             c = case('complex', 'eval', cw(z), f + '(@)'); cs.append(c); meta[c] = ('c1', f, (z,))
@@ -2663,6 +2714,21 @@ def run_C15(tier, rng, stats):
                 e = f + '(' + ','.join(args) + ')'
                 floats.append((case('f64', 'eval', None, e), case('number', 'eval', None, e), [(e, 'fv', None, None)]))
                 sub_cases[e] = case('f64', 'eval', None, e)
+    # three-level shapes F(U(a) op U(b)) (norms, log-sums ...): the same text in both evaluators; every sub-expression is
+    # recorded so that the restriction (finite, below 2^53, no negative zero) is decided on the intermediates too
+    Us = [f + '(%s)' for f in F1s] + ['(%s)²', '(%s)³', 'pow(%s,2)', '(-%s)']
+    Fs = [f + '(%s)' for f in F1s] + ['-(%s)']
+    for f in Fs:
+        for u in Us:
+            for op in ['+', '-', '*', '/']:
+                for a, b in [('3', '0.5'), ('17', '27'), ('0.1', '0.3'), ('0.1', '0.1'), ('2', '7')]:
+                    ua, ub = u % a, u % b
+                    mid = '(' + ua + op + ub + ')'
+                    e = f % mid
+                    floats.append((case('f64', 'eval', None, e), case('number', 'eval', None, e),
+                                   [(ua, 'f1', a, None), (ub, 'f1', b, None), (mid, op, ua, ub), (e, 'f1', mid, None)]))
+                    for t in (ua, ub, mid, e, a, b):
+                        sub_cases[t] = case('f64', 'eval', None, t)
     # (3) decimal vs f64 on positive well-conditioned expressions over + * / sqrt exp ln pow
     gd = ExprGen(rng, 'decimal', lits=['0.5', '1', '1.5', '2', '2.5', '3', '4', '10', '0.25'], allow_ans=False, allow_juxt=False, allow_sup=False, allow_bang=False,
                  f1=['sqrt', 'exp', 'ln'], f2=['pow'], fv=[], ops={'+': 4, '*': 5, '/': 5}, allow_consts=False, allow_post=False)
